@@ -62,17 +62,12 @@ func (r *pathRun) indexRead(xs []value, idx value) value {
 	if !okAll {
 		return xs[r.index(idx, len(xs))]
 	}
-	c := r.ctx
 	n := len(xs)
 	inb := r.inBounds(s, n)
 	if !r.decide(inb, "index-in-range") {
 		panic(rtError(fmt.Sprintf("index out of range [symbolic] with length %d", n)))
 	}
-	res := c.toTerm(xs[n-1])
-	for i := n - 2; i >= 0; i-- {
-		res = c.Ite(c.Eq(s.t, c.Const(s.t.W, uint64(i))), c.toTerm(xs[i]), res)
-	}
-	return mkScalar(res, k)
+	return r.indexReadChecked(xs, s)
 }
 
 // eqTerm is the term for x == y at static type t (nil t: dynamic).
@@ -162,4 +157,36 @@ func (r *pathRun) inBounds(s sym, n int) *Term {
 	c := r.ctx
 	t := c.Resize(s.t, 64, kindSigned(s.k))
 	return c.And(c.Bin(OpSLe, c.Const(64, 0), t), c.Bin(OpSLt, t, c.Const(64, uint64(n))))
+}
+
+// indexReadChecked reads elems[idx] (bounds already checked) as a balanced
+// decision tree over the bits of idx: depth log2(n) instead of an n-deep chain,
+// and equal sub-tables collapse.
+func (r *pathRun) indexReadChecked(xs []value, s sym) value {
+	c := r.ctx
+	n := len(xs)
+	k, _ := scalarKind(xs[0])
+	bitsN := 0
+	for (1 << uint(bitsN)) < n {
+		bitsN++
+	}
+	it := c.Resize(s.t, 64, kindSigned(s.k))
+	terms := make([]*Term, n)
+	for i := range xs {
+		terms[i] = c.toTerm(xs[i])
+	}
+	var build func(lo, bit int) *Term
+	build = func(lo, bit int) *Term {
+		if lo >= n {
+			return terms[n-1]
+		}
+		if bit < 0 {
+			return terms[lo]
+		}
+		hi := build(lo+(1<<uint(bit)), bit-1)
+		lw := build(lo, bit-1)
+		b := c.Eq(c.Extract(it, bit, bit), c.Const(1, 1))
+		return c.Ite(b, hi, lw)
+	}
+	return mkScalar(build(0, bitsN-1), k)
 }
